@@ -1,9 +1,14 @@
 import VotelibDriver.C09
 import VotelibDriver.C01
+import VotelibDriver.C16
+import VotelibDriver.C02
 open Lean
 namespace VL.Drv.C10
+/-- the C10 driver evaluates the models of the proved families (owned by C09, C01, C16, C02, ...) through the
+    correspondence-validated handlers of their owners -/
+def handlers : List (String → Json → Option (Except String Json)) :=
+  [C09.handle, C01.handle, C16.handle, C02.handle]
+
 def handle (op : String) (j : Json) : Option (Except String Json) :=
-  match C09.handle op j with
-  | some r => some r
-  | none => C01.handle op j
+  handlers.firstM (fun h => h op j)
 end VL.Drv.C10
